@@ -11,6 +11,12 @@ import (
 )
 
 func main() {
+	if spec := os.Getenv("VERIF_C13_CHILD"); spec != "" {
+		// a process whose only job is to use the SDK's package-level values for the first time from
+		// several goroutines at once
+		props.C13Child(spec)
+		return
+	}
 	c := wk.FromFlags()
 	f, ok := props.Registry[c.Prop]
 	if !ok {
